@@ -165,6 +165,12 @@ def case(draw, models=MODELS, nmax=50, nmin=2, extreme=False):
         c["hbatch"] = [draw(logu(0.3, 3.0)) for _ in range(draw(st.sampled_from([0, 0, 1, 2, 3])))]
     # every event shifted away from 0 (only expressible through the times form: a tree model puts its youngest tip at 0)
     c["offset"] = draw(st.sampled_from([0.0, 0.0, 0.0, draw(fl(0.05, 2.0)) * max(g["c"])])) if route == "times" else 0.0
+    if c["offset"]:
+        # the shift must not put an event on (or within rounding distance of) a grid point
+        ev = [t + c["offset"] for t in g["s"] + g["c"]]
+        sep = 1e-6 * max(1.0, max(ev))
+        if any(abs(x - t) <= sep for x in grid_of(p) for t in ev):
+            c["offset"] = 0.0
     c["as_intervals"] = route == "times" and not c["offset"] and draw(st.sampled_from([False, False, True]))
     # library use under torch's float32 default with explicitly float64 Parameters (see tt.default_dtype)
     # only through the times / intervals form: a tree model reads its sampling dates in the default dtype
